@@ -89,7 +89,7 @@ type c14Variant struct {
 var c14Variants = []c14Variant{
 	{time.Date(2023, 11, 14, 22, 13, 20, 0, time.UTC), 1370 * time.Millisecond, 0},
 	{time.Date(2024, 11, 14, 22, 13, 21, 500, time.UTC), 2110 * time.Millisecond, 0}, // one year and one second later
-	{time.Date(2031, 2, 3, 4, 5, 7, 0, time.UTC), 17 * time.Second, 1 << 20},         // other start offset, other clock
+	{time.Date(2031, 2, 3, 4, 5, 7, 0, time.UTC), 17 * time.Second, 1<<20 + 512},     // other start offset (LBA 2049: not a multiple of 4 KiB), other clock
 }
 
 func c14Scens(variant int, quick bool) []*fatScen {
@@ -408,7 +408,7 @@ func C14(r *ev.Run) {
 	r.Set("table_cases_identical", tblOK)
 	r.Set("epochs", epochs)
 	r.Set("exhaustive", true)
-	r.Sample(map[string]any{"variants": "three child processes per SOURCE_DATE_EPOCH: clocks 2023-11-14T22:13:20Z+1.37s/call, +1 year 1 s (+2.11 s/call), 2031 (+17 s/call, volume at 1 MiB)", "compared": "SHA-256 of the volume byte range after every transition of every history"})
+	r.Sample(map[string]any{"variants": "three child processes per SOURCE_DATE_EPOCH: clocks 2023-11-14T22:13:20Z+1.37s/call, +1 year 1 s (+2.11 s/call), 2031 (+17 s/call, volume at 1 MiB + 512 bytes)", "compared": "SHA-256 of the volume byte range after every transition of every history"})
 	r.Assume("the wall clock is owned through the vtime seam (every time.Now() in the library is routed through it by the build overlay), advancing on every call")
 }
 
